@@ -1,5 +1,7 @@
 #include "dsplib/resample.h"
 
+#include <algorithm>
+
 #include <cassert>
 
 namespace dsplib {
@@ -42,9 +44,9 @@ arr_real FIRRateConverter::process(const arr_real& in) {
     DSPLIB_ASSERT(nx % decim_ == 0, "Input frame length must be a multiple of the 'decim'");
 
     arr_real x(nd + nx);
-    std::memcpy(x.data(), d_.data(), nd * sizeof(real_t));
-    std::memcpy(x.data() + nd, in.data(), nx * sizeof(real_t));
-    std::memcpy(d_.data(), x.data() + nx, nd * sizeof(real_t));
+    std::copy(d_.begin(), d_.end(), x.begin());
+    std::copy(in.begin(), in.end(), x.begin() + nd);
+    std::copy(x.begin() + nx, x.end(), d_.begin());
 
     const int np = nx / decim_;
     auto y = zeros(np * interp_);
